@@ -72,26 +72,26 @@ func (c *Ctx) typedExpr(fn *gf.Fn, pos token.Pos, tmpl string, args ...ast.Expr)
 // roles of the reconcile function, resolved from the program
 
 type Reconcile struct {
-	FI       *load.FuncInfo
-	Fn       *gf.Fn
-	An       *gf.Analysis
-	Set      *ast.Ident // the StatefulSet parameter
-	Pods     *ast.Ident // the observed pods parameter
-	Deletes  []*ast.CallExpr
-	Creates  []*ast.CallExpr
-	Updates  []*ast.CallExpr
-	W, K     types.Object // wanted and condemned slices
-	Bound    *ast.Ident   // integer bound the wanted slice is made with
-	Slots    *ast.Ident   // effective delete slots
-	HelperCall *ast.CallExpr
-	CurRev, UpdRev *ast.Ident // ControllerRevision parameters
-	Status   types.Object // local StatefulSetStatus
-	Ctor     *types.Func  // versioned pod constructor
+	FI                         *load.FuncInfo
+	Fn                         *gf.Fn
+	An                         *gf.Analysis
+	Set                        *ast.Ident // the StatefulSet parameter
+	Pods                       *ast.Ident // the observed pods parameter
+	Deletes                    []*ast.CallExpr
+	Creates                    []*ast.CallExpr
+	Updates                    []*ast.CallExpr
+	W, K                       types.Object // wanted and condemned slices
+	Bound                      *ast.Ident   // integer bound the wanted slice is made with
+	Slots                      *ast.Ident   // effective delete slots
+	HelperCall                 *ast.CallExpr
+	CurRev, UpdRev             *ast.Ident   // ControllerRevision parameters
+	Status                     types.Object // local StatefulSetStatus
+	Ctor                       *types.Func  // versioned pod constructor
 	GetOrdinal, GetPodRevision *types.Func
-	WLoop    *ast.RangeStmt // loop over W that contains the create site
-	KLoop    *ast.ForStmt   // scale-down loop over K
-	ULoop    *ast.ForStmt   // update walk over W
-	FreshOK  bool           // allocation summary: the constructor returns an uncreated, non-terminating pod
+	WLoop                      *ast.RangeStmt // loop over W that contains the create site
+	KLoop                      *ast.ForStmt   // scale-down loop over K
+	ULoop                      *ast.ForStmt   // update walk over W
+	FreshOK                    bool           // allocation summary: the constructor returns an uncreated, non-terminating pod
 }
 
 func ifaceMethod(p *load.Prog, pkg, iface, method string) *types.Func {
@@ -515,7 +515,7 @@ func stmtOf(body ast.Node, n ast.Node) ast.Stmt {
 // fieldStore is one store into a struct field: `x.F = e`, or the F: e element
 // of a composite literal assigned to x (`x := T{F: e}`, `x = &T{F: e}`, `var x = T{...}`).
 type fieldStore struct {
-	Base    ast.Expr  // x (an identifier for literal stores)
+	Base    ast.Expr   // x (an identifier for literal stores)
 	Owner   types.Type // type of x
 	Field   string
 	Rhs     ast.Expr
